@@ -52,12 +52,16 @@ fn register_receiver(rx: Receiver<CollectCommand>) {
 }
 
 fn send_command(cmd: CollectCommand) {
+    #[cfg(fastrace_verif)]
+    verif_command_point(&cmd, false);
     COMMAND_SENDER
         .try_with(|sender| unsafe { (*sender.get()).send(cmd).ok() })
         .ok();
 }
 
 fn force_send_command(cmd: CollectCommand) {
+    #[cfg(fastrace_verif)]
+    verif_command_point(&cmd, true);
     COMMAND_SENDER
         .try_with(|sender| unsafe { (*sender.get()).force_send(cmd) })
         .ok();
@@ -238,6 +242,8 @@ impl GlobalCollector {
                 .spawn(move || {
                     loop {
                         let begin_instant = Instant::now();
+                        #[cfg(fastrace_verif)]
+                        crate::verif::background_gate();
                         GLOBAL_COLLECTOR.lock().as_mut().unwrap().handle_commands();
                         std::thread::sleep(
                             config
@@ -263,8 +269,15 @@ impl GlobalCollector {
         let submit_spans = &mut self.submit_spans;
         let stale_spans = &mut self.stale_spans;
 
+        #[cfg(fastrace_verif)]
+        crate::verif::fire(|| crate::verif::Point::CycleBegin);
+
         {
             SPSC_RXS.lock().retain_mut(|rx| {
+                #[cfg(fastrace_verif)]
+                crate::verif::fire(|| crate::verif::Point::DrainRx {
+                    chan: rx.verif_chan(),
+                });
                 loop {
                     match rx.try_recv() {
                         Ok(Some(CollectCommand::StartCollect(cmd))) => start_collects.push(cmd),
@@ -277,12 +290,27 @@ impl GlobalCollector {
                         }
                         Err(_) => {
                             // Channel closed. Remove it from the channel list.
+                            #[cfg(fastrace_verif)]
+                            crate::verif::fire(|| crate::verif::Point::RxRemoved {
+                                chan: rx.verif_chan(),
+                            });
                             return false;
                         }
                     }
                 }
             });
         }
+
+        #[cfg(fastrace_verif)]
+        crate::verif::fire(|| crate::verif::Point::BeforeProcess {
+            starts: start_collects.iter().map(|c| c.collect_id).collect(),
+            drops: drop_collects.iter().map(|c| c.collect_id).collect(),
+            commits: commit_collects.iter().map(|c| c.collect_id).collect(),
+            submits: submit_spans
+                .iter()
+                .map(|s| s.collect_token.iter().map(|i| i.collect_id).collect())
+                .collect(),
+        });
 
         // If the reporter is not set, global collectior only clears the channel and then dismiss
         // all messages.
@@ -385,7 +413,65 @@ impl GlobalCollector {
         }
 
         self.reporter.as_mut().unwrap().report(committed_records);
+
+        #[cfg(fastrace_verif)]
+        crate::verif::fire(|| crate::verif::Point::CycleEnd);
     }
+}
+
+#[cfg(fastrace_verif)]
+fn verif_command_point(cmd: &CollectCommand, forced: bool) {
+    crate::verif::fire(|| {
+        let (kind, collect_ids) = match cmd {
+            CollectCommand::StartCollect(c) => ("start", vec![c.collect_id]),
+            CollectCommand::DropCollect(c) => ("drop", vec![c.collect_id]),
+            CollectCommand::CommitCollect(c) => ("commit", vec![c.collect_id]),
+            CollectCommand::SubmitSpans(c) => (
+                "submit",
+                c.collect_token.iter().map(|i| i.collect_id).collect(),
+            ),
+        };
+        crate::verif::Point::Command {
+            kind,
+            collect_ids,
+            forced,
+        }
+    });
+}
+
+#[cfg(fastrace_verif)]
+pub(crate) fn verif_run_cycle() {
+    if let Some(global_collector) = GLOBAL_COLLECTOR.lock().as_mut() {
+        global_collector.handle_commands();
+    }
+}
+
+#[cfg(fastrace_verif)]
+pub(crate) fn verif_stats() -> crate::verif::Stats {
+    let guard = GLOBAL_COLLECTOR.lock();
+    let receivers = SPSC_RXS.lock().iter().map(|rx| rx.verif_chan()).collect();
+    let mut active: Vec<_> = guard
+        .as_ref()
+        .map(|gc| {
+            gc.active_collectors
+                .iter()
+                .map(|(id, a)| crate::verif::ActiveStats {
+                    collect_id: *id,
+                    buffered_sets: a.span_collections.len(),
+                    danglings: a.danglings.values().map(|v| v.len()).sum(),
+                })
+                .collect()
+        })
+        .unwrap_or_default();
+    active.sort_by_key(|a| a.collect_id);
+    crate::verif::Stats { active, receivers }
+}
+
+#[cfg(fastrace_verif)]
+pub(crate) fn verif_touch_sender() -> Option<usize> {
+    COMMAND_SENDER
+        .try_with(|sender| unsafe { (*sender.get()).verif_chan() })
+        .ok()
 }
 
 impl LocalSpansInner {
